@@ -338,6 +338,9 @@ def _doc(variant, unit=True, concrete_quats=None, concrete_pos=None):
             Elem('geom', dict(pose('pos')), name=prefix + 'g_pos'),
             Elem('geom', {'fromto': num(6, 'ft')}, name=prefix + 'g_fromto'),
             Elem('site', pose('quat'), name=prefix + 's_quat'),
+            # children that spell out NO pose at all sit at the jointless body's origin: they move with it like any other
+            Elem('geom', {'size': NumStr([1])}, name=prefix + 'g_none'), Elem('site', {}, name=prefix + 's_none'),
+            Elem('body', {}, [Elem('joint', {}), Elem('geom', pose('pos'), name=prefix + 'cg0')], name=prefix + 'jointed_none'),
             Elem('body', pose('both'), [Elem('joint', {}), Elem('geom', pose('pos'), name=prefix + 'cg')], name=prefix + 'jointed')]
 
   k1, k2 = variant
